@@ -964,3 +964,102 @@ func init() {
 			x.C.Count("fields of types with a DeepCopy method", n)
 		}})
 }
+
+// filteringAccessors: functions of the CRDT model that return a slice/map built by
+// appending inside a loop *under a condition* (they leave elements out), as opposed
+// to accessors that append every element they visit.
+func (x *Ctx) filteringAccessors() map[*ssa.Function]string {
+	out := map[*ssa.Function]string{}
+	for _, fn := range x.P.FuncsIn(crdtPkg) {
+		if fn.Parent() != nil || fn.Signature.Results().Len() == 0 || len(fn.Params) > 1 {
+			continue
+		}
+		if _, isSlice := fn.Signature.Results().At(0).Type().Underlying().(*types.Slice); !isSlice {
+			continue
+		}
+		for _, c := range builtinCalls(fn, "append") {
+			// the loop: a block that dominates the append and is reachable from it
+			var head *ssa.BasicBlock
+			for _, b := range fn.Blocks {
+				if b != c.Block() && b.Dominates(c.Block()) && prog.ReachableFrom(c.Block(), nil)[b] {
+					head = b // innermost = the last such in dominator order
+				}
+			}
+			if head == nil {
+				continue
+			}
+			// is there a path from the loop head back to itself that avoids the append block?
+			if reachesAvoiding(head.Succs[0], head, c.Block()) && head.Succs[0] != c.Block() {
+				// find the deciding condition for the report
+				cond := ""
+				for _, b := range fn.Blocks {
+					if iff := prog.IfOf(b); iff != nil && head.Dominates(b) && b != head && b.Dominates(c.Block()) {
+						cond = x.P.InstrPos(iff)
+					}
+				}
+				if cond != "" {
+					out[fn] = cond
+				}
+			}
+		}
+	}
+	return out
+}
+
+func init() {
+	register(&Rule{ID: "ENC.all", Min: 5, Text: "the snapshot encoder walks complete collections: in the call closure of converter.SnapshotToBytes every collection accessor of the CRDT model that the converter calls appends every node it visits — accessors that leave nodes out under a condition (computed: an append inside a loop that some iteration can skip; e.g. RGATreeList.Nodes, which omits the dead position slots left by moves, or Elements, which omits removed members) are not used for encoding, because later operations may still be anchored on what they omit",
+		Run: func(x *Ctx) {
+			filt := x.filteringAccessors()
+			x.C.Count("filtering collection accessors in the CRDT model", len(filt))
+			var names []string
+			for f := range filt {
+				names = append(names, f.Name())
+			}
+			sort.Strings(names)
+			x.C.Note("filtering accessors (computed): " + strings.Join(names, ", "))
+			enc := x.closureOf([]*ssa.Function{x.fn(convPkg + ".SnapshotToBytes")}, []string{convPkg})
+			n := 0
+			for fn := range enc {
+				for _, c := range prog.CallsIn(fn) {
+					o := prog.CallObj(c)
+					if o == nil || o.Pkg() == nil || !strings.HasSuffix(o.Pkg().Path(), "/"+crdtPkg) {
+						continue
+					}
+					sig := o.Type().(*types.Signature)
+					if sig.Results().Len() == 0 {
+						continue
+					}
+					if _, isSlice := sig.Results().At(0).Type().Underlying().(*types.Slice); !isSlice {
+						continue
+					}
+					n++
+					// the accessor itself, or the one it forwards to
+					bad := ""
+					for _, callee := range x.P.Callees(c) {
+						seen := map[*ssa.Function]bool{}
+						var walk func(f *ssa.Function, d int)
+						walk = func(f *ssa.Function, d int) {
+							if f == nil || seen[f] || d > 2 {
+								return
+							}
+							seen[f] = true
+							if at, ok := filt[f]; ok {
+								bad = prog.FnName(f) + " (condition at " + at + ")"
+							}
+							if len(f.Blocks) <= 2 { // a forwarding accessor
+								for _, cc := range prog.CallsIn(f) {
+									walk(cc.Common().StaticCallee(), d+1)
+								}
+							}
+						}
+						walk(callee, 0)
+					}
+					x.check(bad == "", fmt.Sprintf("func=%s collection=%s", prog.FnName(fn), o.Name()), x.pos(c), "a complete collection is encoded",
+						"the encoder iterates "+bad+", which leaves nodes out: what it omits (dead position slots, tombstones) is missing from every snapshot, and operations anchored on it fail or land elsewhere on snapshot-fed replicas")
+				}
+			}
+			if n < 5 {
+				x.C.Vacuous(x.id()+" collection accessors called by the encoder", n, 5)
+			}
+		}})
+}
